@@ -149,6 +149,9 @@ func vStepMaker(role int, st StateType) {
 		zzverif.Assert(stopped, "C22.retransmitter_stopped_on_leaving")
 	}
 	zzverif.Assert(w.senderAdds <= 1, "C22.at_most_one_retransmitter")
+	// a maker that goes for its funds (csv refund, cooperative close) has left the wait for the taker: the
+	// retransmitter is gone before the first attempt, not only after the last (a claim may be retried for long)
+	zzverif.Assert(!w.spendWhileRetransmitting, "C22.no_retransmitter_while_the_maker_claims")
 	// every retransmission goroutine that was started belongs to a sender registered with the manager
 	// (so that leaving the state can stop it).  Symbolically: goroutines started <= senders registered;
 	// natively: nothing is re-sent after the step while no sender is registered (retry interval 1 s in
